@@ -61,7 +61,7 @@ def run(ctx, replay_ops=None):
               rule=("cases as in C18; profile c19 = 60% groups of 2..17 members; in 70% of them one position (uniform) holds a generated, often failing transaction (overspend, below min balance, "
                     "frozen / not opted-in / unknown asset, dead window, malformed, duplicate of a committed or of a sibling transaction) while the other members are valid payments, so partial effects "
                     "exist before the failure; group-id defects (zero id in a multi-member group, inconsistent ids, wrong hash), fee shortfall with pooling, oversized groups; failing and succeeding groups "
-                    "alternate on the same evaluator (recycled child cows); evaluations = groups tried; distinct = distinct non-empty group op lines"),
+                    "alternate on the same evaluator (recycled child cows); a directed 'written earlier in this block, then written again by a group that FAILS' stream (18% of groups + forced after an asset created in the block): random orders of {asset reconfigure by the manager, transfer / freeze / clawback rewriting the creator's holding, payments and keyregs of accounts touched earlier} x {overspending or dead member at any position, wrong group hash, fee shortfall, none} x {asset created earlier in this block, holding touched earlier in this block, untouched} — parent/child record aliasing shows only there; evaluations = groups tried; distinct = distinct non-empty group op lines"),
               replay_ops=replay_ops,
               extra_assumptions=["the corruptedState guard (a panic recovered in the middle of commitToParent) is not modelled: commitToParent of the model is total",
                                  "aliasing of Go maps / pooled child cows is visible to the tie and the monitor only"])
